@@ -7,7 +7,7 @@ K = ['NULL', 'BOOL', 'NUM', 'STR', 'ARR', 'OBJ']
 out = []
 def ob(name, harness, props, fns, desc, strength='complete', bound=''):
     b = (' bound="%s"' % bound) if bound else ''
-    out.append('    //@ob name=%s harness=%s props=%s strength=%s%s fns=%s stubs=3 timeout=240 replay=generic' % (name, harness, props, strength, b, fns))
+    out.append('    //@ob name=%s harness=%s props=%s strength=%s%s fns=%s stubs=4 timeout=240 replay=generic' % (name, harness, props, strength, b, fns))
     out.append('    //@ desc="%s"' % desc)
 for i, a in enumerate(K):
     for j, b in enumerate(K):
@@ -346,13 +346,13 @@ def gen_substr():
     qd = {0: 'EVERY i64', 1: 'start >= 0, length >= 0', 2: 'start >= 0, length < 0', 3: 'start < 0, length >= 0', 4: 'start < 0, length < 0'}
     for has_len in (False, True):
         for l in range(0, 4):
-            quads = [0] if (not has_len or l == 0) else [1, 2, 3, 4]
+            quads = [0]
             for q in quads:
                 k = 3 if has_len else 2
                 h = 'k_c16_substr_abstract_%d_len%d_%s' % (k, l, qn[q])
                 name = '%d.len%d.%s' % (k, l, qn[q])
-                tier = 'quick' if name in ('2.len0.all', '2.len2.all', '3.len0.all') else ('thorough' if name in ('2.len1.all', '3.len1.pp', '3.len1.pn', '3.len1.nn') else 'off')
-                out.append('    //@ob name=C16.substr.abstract.%d.len%d.%s harness=%s props=C16,C01 tier=%s strength=bounded bound="a string of %d characters (abstract: Chars by contract, real Skip/Take/collect); start%s: %s (all 64-bit values of that sign)" fns=op::string::substr stubs=5 timeout=600 group=heavy' % (k, l, qn[q], h, tier, l, '/length' if has_len else '', qd[q]))
+                tier = 'quick'
+                out.append('    //@ob name=C16.substr.abstract.%d.len%d.%s harness=%s props=C16,C01 tier=%s strength=bounded bound="a string of %d characters (abstract: Chars by contract, real Skip/Take/collect); start%s: %s (all 64-bit values of that sign)" fns=op::string::substr stubs=6 timeout=600 group=heavy' % (k, l, qn[q], h, tier, l, '/length' if has_len else '', qd[q]))
                 out.append('    //@ desc="substr on a %d-character string, for every 64-bit start%s in the stated sign class: the result is exactly the characters the statement describes (skip / count from the end; take / stop before the end; clamped), counted in characters, never bytes"' % (l, ' and length' if has_len else ''))
                 out.append('    substr_abstract_harness!(%s, %s, %d, %d);' % (h, 'true' if has_len else 'false', l, q))
     _splice(p, 'SUBSTR', out)
